@@ -186,5 +186,6 @@ def run(repo, res, tier):
     c04.isocov(repo, res)
     from vlib import rules_declguard as DG
     DG.declguard_rule(repo, res, modules=("bash", "zsh", "fish"))
+    c04.perlevel_rule(repo, res)  # .. and every level has its slot in the per-level tables (PERLEVEL, shared with C04)
     res.floor("EQFIELDS", res.count("EQFIELDS"), 6)
     res.floor("COARSE", res.count("COARSE"), 3)
